@@ -79,12 +79,11 @@ mod harness {
         else { assert!(c >= 1 && c <= blocks - last_n, "SPEC sampling: samples count outside [1, blocks - last_n]"); }
         kani::cover!(c > 1000, "many samples");
     }
-    #[kani::proof] #[kani::unwind(7)]
-    fn sample_blocks_wellformed() {
+    fn sample_blocks_wellformed<const EXTRA: u64>() {
         let last_n: u64 = kani::any(); kani::assume(last_n >= 1 && last_n <= 3);
         let start_number: u64 = kani::any(); let last_number: u64 = kani::any();
         // the sampling branch: more than last-N blocks are missing; at most 3 samples (loop bound)
-        kani::assume(last_number > start_number && last_number - start_number > last_n && last_number - start_number <= last_n + 3);
+        kani::assume(last_number > start_number && last_number - start_number > last_n && last_number - start_number <= last_n + EXTRA);
         let start_td = U256(kani::any()); let last_td = U256(kani::any());
         // total difficulty grows by at least 1 per block
         kani::assume(last_td.0 > start_td.0 && (last_td.0 - start_td.0) as u64 >= last_number - start_number && last_td.0 - start_td.0 < (1 << 16));
@@ -97,6 +96,8 @@ mod harness {
             if i + 1 < ds.len { assert!(ds.buf[i].0 < ds.buf[i + 1].0, "SPEC sampling: sampled difficulties not strictly increasing / not unique"); }
             i += 1;
         }
-        kani::cover!(ds.len == 3, "three distinct samples");
+        kani::cover!(ds.len as u64 == EXTRA, "the maximal number of distinct samples");
     }
+    #[kani::proof] #[kani::unwind(7)] fn sample_blocks_q() { sample_blocks_wellformed::<1>(); }
+    #[kani::proof] #[kani::unwind(7)] fn sample_blocks_t() { sample_blocks_wellformed::<3>(); }
 }
